@@ -228,6 +228,27 @@ func runC06Deep(r *Run, rng *Rng, replay string) {
 			}
 		}
 	}
+	// a second pass of the scalar EXEC test (other operand variants; its first variant always compares with EXEC = 0)
+	for _, arch := range []string{"gcn3", "cdna3"} {
+		rows := c.e.dGCN3.VerifRows()
+		if arch == "cdna3" {
+			rows = c.e.dCDNA.VerifRows()
+		}
+		seen := map[string]bool{}
+		for _, it := range rows {
+			f := c06FormatOf(it)
+			k := fmt.Sprintf("%s/%d", f, it.Opcode)
+			if seen[k] || f == "smem" {
+				continue
+			}
+			seen[k] = true
+			for _, sf := range c06ScaFormats {
+				if sf == f {
+					c.checkScalar(arch, f, it)
+				}
+			}
+		}
+	}
 	// every translated handler that an opcode switch dispatches must have been exercised
 	n, miss := 0, []string{}
 	reached := map[string]bool{}
